@@ -362,7 +362,8 @@ impl From<(Vec<&str>, (GlobalModuleReference, Option<&str>))> for Import {
             types: value.0.into_iter().map(String::from).collect(),
             global_module_reference: value.1 .0,
             with: value.1 .1.map(|with| {
-                if with == WITH_SUCCESSORS {
+                // the two words may be separated by any white-space or comments
+                if with.ends_with("SUCCESSORS") {
                     With::Successors
                 } else {
                     With::Descendants
